@@ -164,6 +164,115 @@ def work_table(funcs, impl_prefix):
     return out
 
 
+NEXT = re.compile(r"(Iterator>::next|::next|::for_each|::try_for_each|::fold)(::<.*>)?$")
+
+
+def bypass_query(f, timeout=30):
+    """Is there an acyclic control-flow path from the entry of `f` to its return that passes NO tracing call and no
+    loop header (`Iterator::next`, `for_each`) from which a tracing call is reachable?  Encoded for z3 as
+    least-fixpoint reachability with a rank per block (every model is a concrete path).  -> (True/False/None, path)
+    None = the method has no tracing call at all (nothing to bypass)."""
+    tr = set()
+    for n, b in f.blocks.items():
+        t = b.term
+        if not b.cleanup and t.get("kind") == "call" and TRACE.search(t["callee"].strip()):
+            tr.add(n)
+    if not tr:
+        return None, []
+    bl = set(tr)
+    for n, b in f.blocks.items():
+        t = b.term
+        if not b.cleanup and t.get("kind") == "call" and NEXT.search(t["callee"].strip()) and (_reach(f, t["to"]) & tr):
+            bl.add(n)
+    blocks = sorted(n for n, b in f.blocks.items() if not b.cleanup)
+    rets = [n for n in blocks if f.blocks[n].term["kind"] == "return"]
+    if not rets:
+        return False, []
+    preds = {}
+    for n in blocks:
+        if n in bl:
+            continue
+        for d in _succ(f.blocks[n].term):
+            preds.setdefault(d, []).append(n)
+    lines = ["(set-logic QF_BV)"]
+    for n in blocks:
+        lines.append("(declare-const r%d Bool)(declare-const d%d (_ BitVec 16))" % (n, n))
+    lines.append("(assert r0)(assert (= d0 (_ bv0 16)))")
+    for n in blocks:
+        if n == 0:
+            continue
+        alts = ["(and r%d (bvult d%d d%d))" % (s, s, n) for s in preds.get(n, [])]
+        lines.append("(assert (=> r%d (or false %s)))" % (n, " ".join(alts)))
+    lines.append("(assert (or false %s))" % " ".join("r%d" % n for n in rets if n not in bl))
+    lines.append("(check-sat)")
+    p = subprocess.run(["z3", "-in", "-T:%d" % timeout], input="\n".join(lines) + "\n", capture_output=True, text=True)
+    first = p.stdout.strip().split("\n")[0] if p.stdout.strip() else ""
+    if first == "unsat":
+        return False, []
+    if first != "sat" or "(error" in p.stdout:
+        raise ValueError("solver error on bypass query of %s" % f.name[-60:])
+    return True, []
+
+
+def bypass_table(funcs, impl_prefix):
+    """-> {method name: True if the method (closures excluded) can return without passing any of its tracing calls}"""
+    out = {}
+    for key, f in funcs.items():
+        if not f.name.startswith(impl_prefix) or "{closure" in f.name:
+            continue
+        m = re.search(r"::(visit_\w+)$", f.name)
+        if not m:
+            continue
+        r, _ = bypass_query(f)
+        if r is not None:
+            out[m.group(1)] = r
+    return out
+
+
+def solve_bypass(methods, mine, others, timeout=30):
+    """exists a method m that THIS visitor can leave without tracing although no sibling can?"""
+    idx = {m: i for i, m in enumerate(methods)}
+    def tbl(t):
+        e = "false"
+        for m, v in t.items():
+            if v and m in idx:
+                e = "(or (= m (_ bv%d 8)) %s)" % (idx[m], e)
+        return e
+    known = lambda t: "(or false %s)" % " ".join("(= m (_ bv%d 8))" % idx[m] for m in t if m in idx)
+    q = "(set-logic QF_BV)\n(declare-const m (_ BitVec 8))\n(assert (bvult m (_ bv%d 8)))\n(assert %s)\n" % (len(methods), tbl(mine))
+    for o in others:
+        q += "(assert (and %s (not %s)))\n" % (known(o), tbl(o))
+    q += "(check-sat)\n"
+    p = subprocess.run(["z3", "-in", "-T:%d" % timeout], input=q, capture_output=True, text=True)
+    res = p.stdout.strip().split("\n")[0] if p.stdout.strip() else "error"
+    if "(error" in p.stdout or res not in ("sat", "unsat"):
+        return "error", None
+    if res == "sat":
+        p = subprocess.run(["z3", "-in", "-T:%d" % timeout], input=q + "(get-value (m))\n", capture_output=True, text=True)
+        mm = re.search(r"#x([0-9a-f]{2})", p.stdout)
+        return "sat", methods[int(mm.group(1), 16)] if mm else None
+    return "unsat", None
+
+
+def analyse_bypass(mir_text):
+    """-> list of dict(visitor, res, method, table)"""
+    funcs = mir.parse(mir_text, lambda n: ("push_back" in n or "::visit" in n))
+    tabs = {}
+    for self_type in ("MarkAndSweepContext", "MarkAndSweepContextRefQueue", "GlobalSlotRecycler"):
+        prefix, pb = impl_prefix_of(funcs, self_type)
+        if pb is None:
+            continue
+        tabs[self_type] = bypass_table(funcs, prefix + "::")
+    methods = sorted({m for t in tabs.values() for m in t})
+    out = []
+    for v, t in tabs.items():
+        t0 = time.time()
+        others = [tabs[w] for w in tabs if w != v]
+        res, m = solve_bypass(methods, t, others) if others else ("error", None)
+        out.append({"visitor": v, "res": res, "method": m, "methods": len(t), "can_bypass": sorted(k for k, x in t.items() if x), "dt": time.time() - t0})
+    return out
+
+
 def pointer_table(f, nkinds, pvariants):
     """SteelValPointer::from_value: kind -> pointer variant index or None"""
     b, t = _disc_switch(f, r"\(\*_1\)")
